@@ -22,8 +22,8 @@ EXIT_OK, EXIT_VIOLATION, EXIT_INCONCLUSIVE = 0, 1, 3
 def install_fake_mpi(mpi_module=None):
     """mpi4py cannot be imported in this image (no libmpi): place a stand-in in sys.modules"""
     if mpi_module is None:
-        from lib import symmpi
-        mpi_module = symmpi.make_mpi_module()
+        from lib import simmpi
+        mpi_module = simmpi.make_mpi_module()
     m = types.ModuleType('mpi4py')
     m.MPI = mpi_module
     sys.modules['mpi4py'] = m
@@ -39,6 +39,18 @@ def repo_import(name):
     mod = importlib.import_module(name)
     f = os.path.realpath(mod.__file__)
     assert f.startswith(os.path.realpath(REPO) + os.sep), 'module %s loaded from %s' % (name, f)
+    return mod
+
+
+def load_copy(name, alias):
+    """a second, independent instance of module `name` (same file in REPO) under another module name,
+    so that one instance can carry injected stand-ins while the other stays pristine for replays"""
+    import importlib.util
+    orig = repo_import(name)
+    spec = importlib.util.spec_from_file_location(alias, orig.__file__)
+    mod = importlib.util.module_from_spec(spec)
+    mod.__package__ = orig.__package__
+    spec.loader.exec_module(mod)
     return mod
 
 
